@@ -27,6 +27,23 @@ pub fn add_skew(d: std::time::Duration) {
     SKEW.with(|s| s.set(s.get().saturating_add(d)));
 }
 
+/// Time that passes inside a poll, for code running inside the world's (paused) tokio
+/// runtime: moves tokio's virtual clock - and with it the seam - by `d`, as a blocking piece
+/// of synchronous code (a slow listener) does. Timers that become due are only noticed once
+/// the poll has returned, exactly as on a blocked thread. (`tokio::time::advance` moves the
+/// clock in its first poll and then yields; it is polled once and dropped.)
+pub fn burn(d: std::time::Duration) {
+    use std::future::Future;
+    struct N;
+    impl std::task::Wake for N {
+        fn wake(self: std::sync::Arc<Self>) {}
+    }
+    let waker = std::task::Waker::from(std::sync::Arc::new(N));
+    let mut cx = std::task::Context::from_waker(&waker);
+    let mut f = Box::pin(tokio::time::advance(d));
+    let _ = f.as_mut().poll(&mut cx);
+}
+
 pub fn skew() -> std::time::Duration {
     SKEW.with(|s| s.get())
 }
